@@ -2,7 +2,10 @@
 import zlib
 
 STATUS_TEXT = {200: 'OK', 201: 'Created', 206: 'Partial Content', 301: 'Moved Permanently', 404: 'Not Found',
-               500: 'Internal Server Error', 204: 'No Content', 304: 'Not Modified', 203: 'Non-Authoritative Information'}
+               500: 'Internal Server Error', 204: 'No Content', 304: 'Not Modified', 203: 'Non-Authoritative Information',
+               202: 'Accepted', 205: 'Reset Content', 207: 'Multi-Status', 300: 'Multiple Choices', 302: 'Found',
+               307: 'Temporary Redirect', 400: 'Bad Request', 403: 'Forbidden', 410: 'Gone', 416: 'Range Not Satisfiable',
+               418: "I'm a teapot", 502: 'Bad Gateway', 503: 'Service Unavailable', 299: 'Odd', 599: 'Odd'}
 
 BODIES = [
     ('empty', b''),
@@ -105,6 +108,9 @@ def gen_response(rng, allow=None, position='any'):
         bname, body = 'random', bytes(rng.randrange(256) for _ in range(rng.randrange(1, 300)))
     method = 'GET'
     status = rng.choice([200, 200, 200, 201, 206, 301, 404, 500, 203])
+    if rng.random() < 0.2:
+        # every status outside 1xx/204/304 may carry a body (205 too: RFC 7230 3.3.3 does not exempt it)
+        status = rng.choice([202, 205, 205, 207, 300, 302, 307, 400, 403, 410, 416, 418, 502, 503, 299, 599])
     fields = [('Server', 'sim'), ('Content-Type', 'text/html')]
     then = 'keep'
     chunk_style = None
